@@ -30,6 +30,8 @@ SHAPES = [
     {'req': ['x'], 'opt': [['y', ['i', 1]]], 'varkw': True},
     {'req': ['x'], 'varargs': True, 'varkw': True},
     {'req': ['x'], 'opt': [['y', ['s', 'd']]], 'varargs': True},
+    {'req': ['x'], 'kwopt': [['s', ['i', 2]]]},
+    {'req': ['x'], 'opt': [['y', ['i', 1]]], 'kwopt': [['s', ['i', 2]]], 'kwreq': ['r'], 'varkw': True},
 ]
 
 
@@ -116,6 +118,8 @@ def bindings(draw, sig, valstrat):
     b = {'named': named}
     if sig.get('varargs') and k == len(names) and draw(st.booleans()):
         b['xpos'] = draw(st.lists(valstrat, min_size=1, max_size=2))
+    if sig.get('kwreq') or sig.get('kwopt'):
+        b['kwonly'] = [[n, draw(valstrat)] for n in sig.get('kwreq', [])] + [[n, draw(valstrat)] for n, _ in sig.get('kwopt', []) if draw(st.booleans())]
     if sig.get('varkw'):
         kws = draw(st.lists(st.sampled_from(['k', 'm', 'zz']), unique=True, max_size=2))
         b['xkw'] = [[n, draw(valstrat)] for n in kws]
@@ -130,6 +134,7 @@ def near_duplicate(draw, b, valstrat, forbidden=()):
     nb = copy.deepcopy(b)
     slots = [('named', i) for i in range(len(nb.get('named', [])))] + \
             [('xpos', i) for i in range(len(nb.get('xpos', [])))] + \
+            [('kwonly', i) for i in range(len(nb.get('kwonly', [])))] + \
             [('xkw', i) for i in range(len(nb.get('xkw', [])))]
     kind, i = slots[draw(st.integers(0, len(slots) - 1))]
     cur = nb[kind][i] if kind == 'xpos' else nb[kind][i][1]
@@ -274,6 +279,21 @@ def cache_cases(draw, modules=('std', 'safe'), algos=tuple(H.ALGOS), maxsizes=(1
             b = draw(bindings(sig, valstrat))
         if b not in pool_b:
             pool_b.append(b)
+    if key_req == 'hashable' and kkind == 'raw' and draw(st.integers(0, 9)) < 2:
+        # equal-but-differently-typed values swapped between two parameters: (x=1, y=1.0) vs (x=1.0, y=1)
+        cands = [b for b in pool_b if len(b.get('named', [])) + len(b.get('kwonly', [])) + len(b.get('xkw', [])) >= 2]
+        if cands:
+            import copy
+            b0 = cands[draw(st.integers(0, len(cands) - 1))]
+            tw = draw(st.sampled_from([(['i', 1], ['f', '1.0']), (['i', 0], ['B', False]), (['f', '2.0'], ['i', 2])]))
+            for pair in (tw, tw[::-1]):
+                nb = copy.deepcopy(b0)
+                slots = [('named', i) for i in range(len(nb.get('named', [])))] + [('kwonly', i) for i in range(len(nb.get('kwonly', [])))] + \
+                        [('xkw', i) for i in range(len(nb.get('xkw', [])))]
+                for (kind, i), v in zip(slots[:2], pair):
+                    nb[kind][i][1] = list(v)
+                if nb not in pool_b:
+                    pool_b.append(nb)
     if draw(st.integers(0, 9)) < 3:
         # a pair of calls that differ ONLY in one 'confusable' character of one string argument (x:y / x|y / x_y ...):
         # the shape that exposes a lossy key -> storage-name mapping
